@@ -1,4 +1,11 @@
-"""ActorCore group: C03, C05, C06, C08, C09 (actor runtime under the controlled scheduler)."""
+"""ActorCore group: C03, C05, C06, C08, C09 (the actor runtime under the controlled scheduler)."""
+
+_WHAT = ("the real actor runtime (System, Context.HandleEnvelop and all its handlers, guard, event stream) with the mailbox re-instrumented from the "
+         "current source, run under the controlled scheduler with scripted actors; every mailbox-level step (queue insertion, end of Enqueue, Pause/Resume "
+         "words, system/user pop, paused load, handler call) is replayed on coq/Actor/Core.v, which must predict the target mailbox and the content of every "
+         "enqueue, the message of every handler call, everything user code observes (behaviour invocations with instance and behaviour-stack mode, ActorOf "
+         "results), and the final per-actor state (state, zombie, paused, queue lengths, stash, children, watchers, behaviour stack, instance, registry) and "
+         "event-stream tables")
 
 COMPONENTS = {
     "actor": {
@@ -10,11 +17,44 @@ COMPONENTS = {
             "internal/actor/xv_actor_verif.go": "acc/actor/xv_actor_verif.go",
         },
         "instrument": {"profile": "mailbox-obj", "files": ["internal/mailbox/unbounded_mailbox.go"]},
-        "what": "the real actor runtime (System, Context.HandleEnvelop and all handlers, guard, event stream) with the mailbox re-instrumented from the current source, run under the controlled scheduler with scripted actors; every mailbox-level step is replayed on coq/Actor/Core.v which must predict the target and content of every enqueue, the message of every handler call, everything user code observes and the final per-actor state",
+        "what": _WHAT,
     },
 }
 
+_RULE = ("scenarios = external API callers + scripted actors (behaviours, supervision decisions, hook outcomes are data): (a) random trees of up to ~8 actors "
+         "with tell/tell-self/spawn/kill(poison or not)/panic/stash/unstash/watch/subscribe/publish/become scripts and references obtained from ActorOf, "
+         "children, sender, parent and parsed paths, racing external callers; (b) the supervision matrix: decision (6 + invalid) x one-for-one/one-for-all x "
+         "failure site (user message at every position of a queued burst, OnLaunch, a child's OnKilled, sibling failure) x restart hooks that may fail x "
+         "escalation depth 1..2, with probes afterwards; schedules: random and sticky (few preemptions) choosers of the controlled scheduler. one case = one "
+         "complete run; distinct = distinct (scenario, schedule); non-trivial = at least 3 actors")
+
+_MNV = [
+    "the mailbox handshake (status word, counters, goroutine start) is abstracted in ActorCore: justified by the C01/C02 theorems",
+    "registry (sync.Map), event-stream tables and actor-local updates between two mailbox operations are atomic (they contain no scheduling point); M1, M3",
+    "futures/Ask, scheduler jobs, remoting and metrics are outside ActorCore (C04, C20, C11-C15)",
+    "Go map iteration order (children, watchers, subscribers, one-for-all targets) is a free choice of the model resolved by the observed trace",
+]
+
 PROPERTIES = {
-    "CX": {"components": ["actor"], "coq_files": ["Properties/CX.v"], "rule": "scratch", "modelled_not_verified": []},
+    "C03": {"components": ["actor"], "rule": _RULE, "modelled_not_verified": _MNV, "monitor_filter": r"^c03-|^no-quiescence$|^crash$"},
+    "C05": {"components": ["actor"], "rule": _RULE, "modelled_not_verified": _MNV, "monitor_filter": r"^c05-|^crash$"},
+    "C06": {"components": ["actor"], "rule": _RULE, "modelled_not_verified": _MNV, "monitor_filter": r"^c06-|^crash$"},
+    "C08": {"components": ["actor"], "rule": _RULE, "modelled_not_verified": _MNV, "monitor_filter": r"^c08-|^crash$"},
+    "C09": {"components": ["actor"], "rule": _RULE, "modelled_not_verified": _MNV, "monitor_filter": r"^c09-|^no-quiescence$|^crash$"},
 }
-META = {}
+
+def _meta(what):
+    return {
+        "text": what + " Theorems are about coq/Actor/Core.v (all scripts, decisions, hook outcomes and schedules); the model is tied to the code by lock-step replay of the real runtime under a controlled scheduler, and the property is also evaluated directly on what the real runtime did (monitors).",
+        "design_ref": "DESIGN.md section 4 / Appendix A",
+        "note": "Trusted: Coq kernel; extraction; AST instrumenter + controlled scheduler; the abstraction of the mailbox handshake (C01/C02); atomicity of code between two mailbox operations; scripted actors cover user code only as far as the script language goes.",
+        "technique": "Coq proof over an executable small-step model of the actor runtime + lock-step correspondence against the real runtime under a controlled scheduler",
+    }
+
+META = {
+    "C03": _meta("Conservation of user messages (processed / stashed / dead-lettered exactly once; zombie and after-stop exceptions)."),
+    "C05": _meta("Lifecycle grammar per incarnation (OnLaunch first, nothing after own OnKilled, restart starts a new incarnation with OnLaunch at the restarted actor)."),
+    "C06": _meta("Kill terminates the subtree, children first, each reported once; path released."),
+    "C08": _meta("Supervision applies exactly the decided directive to exactly the strategy's targets."),
+    "C09": _meta("No survivor stays paused or half-stopped; queued mail survives restart; zombie behaviour."),
+}
